@@ -232,7 +232,7 @@ def _call_create(pol: Polarimetry, cls: ClassInfo, angles: Any, stokes: str) -> 
     return interp.call_function(r.node, [ClassRef(cls), Opaque('shape'), Opaque('data.dtype'), stokes], kwargs, owner=r.owner)
 
 
-def _same_structure(op: Any, kind: ClassInfo) -> bool:
+def _same_structure(op: Any, kind: ClassInfo) -> bool | None:
     ops = op.ops if isinstance(op, Chain) else [op]
     structs = []
     for o in ops:
@@ -241,7 +241,9 @@ def _same_structure(op: Any, kind: ClassInfo) -> bool:
             cur = cur.attrs['operator']
         structs.append(cur.attrs.get('_in_structure') if isinstance(cur, SymObj) else None)
     # the same structure value (built once and shared, or built again from the same arguments)
-    return all(isinstance(s, Rec) and s.cls is kind and (s is structs[0] or s == structs[0]) for s in structs)
+    if not all(isinstance(s, Rec) for s in structs):
+        return None  # a structure the interpreter could not follow (e.g. the kind table is computed): not decided
+    return all(s.cls is kind and (s is structs[0] or s == structs[0]) for s in structs)
 
 
 def _factories(ck, pol: Polarimetry, kind: ClassInfo, L: str, tag: str, a: Poly) -> None:
@@ -268,8 +270,12 @@ def _factories(ck, pol: Polarimetry, kind: ClassInfo, L: str, tag: str, a: Poly)
                 continue
             got = pol.matrix(op, kind, what)
             ck.expect('M7', got == want, what, f'factory denotes {text}', f'factory denotes {got}, expected {text} = {want}', instance=inst, semantic=True)
-            ck.expect('M7', _same_structure(op, kind), what, f'all factors share one structure, the {kind.name} built by class_for(stokes).structure_for(shape, dtype)',
-                      'the factors of the factory product are not all built on the one structure of the requested Stokes kind', instance=inst + ' structure')
+            same = _same_structure(op, kind)
+            if same is None:
+                ck.incomplete('M7', what, 'the structure the factory builds its factors on could not be followed (it is not obtained from the kind table and structure_for in a form the interpreter evaluates)', instance=inst + ' structure')
+            else:
+                ck.expect('M7', same, what, f'all factors share one structure, the {kind.name} built by class_for(stokes).structure_for(shape, dtype)',
+                          'the factors of the factory product are not all built on the one structure of the requested Stokes kind', instance=inst + ' structure')
         except NonLinear as exc:
             ck.bad('M7', what, str(exc), instance=inst)
         except InterpRaise as exc:
